@@ -1676,6 +1676,9 @@ def gen_weights(rng, rs, shape):
     lw = rs.normal(0, rng.choice([0.3, 1.0, 3.0]), size=shape)
     if kind < 0.5:
         lw += rng.choice([-700.0, 300.0, 1000.0])  # exp() of the raw weights over/underflows
+    if len(shape) >= 2 and shape[-1] >= 2 and rng.random() < 0.4:
+        # the elements of an array message are weighted on very different scales (normalised per element)
+        lw = lw + np.array([rng.choice([0.0, -900.0, 750.0, 1500.0]) for _ in range(shape[-1])])
     return np.round(lw, 4)
 
 
@@ -1789,9 +1792,61 @@ def run(ctx):
         else:
             case = gen_moments(ctx.rng)
             one_case(ctx, case, label="moments", budget=budget)
+    element_assignment(ctx, ctx.n(40, 600))
+
+
+def element_assignment(ctx, n):
+    """an element of an array-valued message is assigned (`msg[i] = other`, as the EP code does) after the message
+    was evaluated: everything it reports afterwards is that of a message built afresh from the parameters it holds now"""
+    rng = ctx.rng
+    classes = {"normal": NormalMessage, "naturalNormal": NaturalNormal, "gamma": GammaMessage, "beta": BetaMessage}
+    what = ("mean", "variance", "std", "scale", "log_partition", "natural_parameters")
+    for _ in range(n):
+        fam = rng.choice(sorted(classes))
+        cls = classes[fam]
+        p1, p2 = gen_params(rng, fam, 3)
+        q1, q2 = gen_params(rng, fam, 0)
+        i = rng.randrange(3)
+        case = {"kind": "element-assignment", "fam": fam, "p1": p1, "p2": p2, "q": [q1, q2], "i": i}
+
+        def read(m, x):
+            out = {}
+            with np.errstate(all="ignore"):
+                for a in what:
+                    try:
+                        out[a] = np.asarray(getattr(m, a), dtype=float).round(12).tolist()
+                    except Exception as e:  # noqa
+                        out[a] = type(e).__name__
+                try:
+                    out["logpdf"] = np.asarray(m.logpdf(x), dtype=float).round(10).tolist()
+                except Exception as e:  # noqa
+                    out["logpdf"] = type(e).__name__
+            return out
+
+        try:
+            m = cls(np.array(p1, dtype=float), np.array(p2, dtype=float))
+            x = np.asarray(m.mean, dtype=float) * 1.0 + (0.1 if fam in ("normal", "naturalNormal") else 0.0)
+            read(m, x)  # evaluated before the assignment
+            m[i] = cls(q1, q2)
+            r1, r2 = list(p1), list(p2)
+            r1[i], r2[i] = q1, q2
+            fresh = cls(np.array(r1, dtype=float), np.array(r2, dtype=float))
+            got, want = read(m, x), read(fresh, x)
+        except Exception as e:  # noqa
+            ctx.hit("element-assignment:raised:" + type(e).__name__)
+            continue
+        ctx.hit("element-assignment:" + fam)
+        ctx.evaluations += 1
+        if json.dumps(got, sort_keys=True) != json.dumps(want, sort_keys=True):
+            diff = sorted(a for a in got if got[a] != want[a])
+            ctx.fail("C17-stale-after-element-assignment",
+                     f"after msg[{i}] = other an array message still reports values of its old parameters ({', '.join(diff)})",
+                     case, {"got": {a: got[a] for a in diff[:3]}, "want": {a: want[a] for a in diff[:3]}})
 
 
 def replay(ctx, payload):
     case = payload.get("case") or payload.get("disagreements", [{}])[0].get("case")
+    if case.get("kind") == "element-assignment":
+        return element_assignment(ctx, 40)
     one_case(ctx, case, label="replay")
     print(json.dumps({"failures": ctx.failures[:3], "disagreements": ctx.disagreements[:3]}, default=str)[:3000])
